@@ -150,7 +150,7 @@ func (e *emitter) file(f *File, base int) []byte {
 	}
 	hl := 24
 	size := hl + len(body)
-	large := size > 0xFFFFFF
+	large := size >= 0xFFFFFF
 	attr := f.Attr &^ 1
 	if large {
 		hl = 32
@@ -201,7 +201,7 @@ func PadFile(size int) []byte {
 		f.GUID[i] = 0xFF
 	}
 	hl := 24
-	if size > 0xFFFFFF {
+	if size >= 0xFFFFFF {
 		hl = 32
 	}
 	f.Body = make([]byte, size-hl)
@@ -243,7 +243,7 @@ func (e *emitter) vol(v *Vol, base int) []byte {
 		}
 		hl := 24
 		// large files: header is 32 bytes
-		if f.Secs == nil && 24+len(f.Body) > 0xFFFFFF {
+		if f.Secs == nil && 24+len(f.Body) >= 0xFFFFFF {
 			hl = 32
 		}
 		if a := AttrAlign(f.Attr); a != 1 {
@@ -519,6 +519,13 @@ func BoundaryValues(f Field) []uint64 {
 		max = ^uint64(0)
 	}
 	vals := []uint64{0, 1, uint64(f.HdrSize), uint64(f.HdrSize) + 1, max, max - 1}
+	// counts and sizes that make "n * element size" wrap around in 32 or 64 bits
+	if f.Width == 4 {
+		vals = append(vals, 1<<24, 1<<27, 1<<27+1, 1<<28, 1<<31, 1<<31+1)
+	}
+	if f.Width == 8 {
+		vals = append(vals, 1<<32, 1<<32+1, 1<<59, 1<<63)
+	}
 	if f.HdrSize > 0 {
 		vals = append(vals, uint64(f.HdrSize)-1)
 	}
@@ -535,4 +542,31 @@ func Mutate(img []byte, f Field, v uint64) []byte {
 		out[f.Off+i] = byte(v >> (8 * uint(i)))
 	}
 	return out
+}
+
+// GenMEFPT builds an ME flash partition table ("$FPT" signature at offset 16, count, 24 more header
+// bytes, then 32-byte entries) followed by some payload, and the field map of its header.
+func GenMEFPT(r *Rng, n int) ([]byte, []Field) {
+	b := make([]byte, 16)
+	for i := range b {
+		b[i] = byte(r.Intn(0x20)) // never '$'
+	}
+	b = append(b, '$', 'F', 'P', 'T')
+	b = binary.LittleEndian.AppendUint32(b, uint32(n))
+	b = append(b, r.Bytes(24)...)
+	for i := 0; i < n; i++ {
+		e := make([]byte, 32)
+		copy(e, []byte{byte('A' + i%26), 'B', 'C', 0})
+		binary.LittleEndian.PutUint32(e[8:], uint32(0x1000*(i+1)))
+		binary.LittleEndian.PutUint32(e[12:], uint32(0x800))
+		binary.LittleEndian.PutUint32(e[28:], uint32(r.Intn(6)))
+		b = append(b, e...)
+	}
+	b = append(b, r.Bytes(r.Pick(0, 7, 32, 100))...)
+	total := len(b)
+	fields := []Field{{"mefpt.count", 20, 4, total - 20, 48}, {"mefpt.sig", 16, 4, total - 16, 48}}
+	if n > 0 {
+		fields = append(fields, Field{"mefpt.e0.offset", 48 + 8, 4, total - 56, 32}, Field{"mefpt.e0.length", 48 + 12, 4, total - 60, 32})
+	}
+	return b, fields
 }
